@@ -2,7 +2,9 @@ package fw
 
 import (
 	"encoding/json"
+	"fmt"
 	"os"
+	"path/filepath"
 )
 
 // Finding is one entry of /verif/known_findings.json. The file is committed
@@ -24,18 +26,25 @@ type findingsFile struct {
 }
 
 func loadFindings(path, prop string) []Finding {
-	b, err := os.ReadFile(path)
-	if err != nil {
-		return nil
-	}
-	var ff findingsFile
-	if json.Unmarshal(b, &ff) != nil {
-		return nil
-	}
 	var out []Finding
-	for _, f := range ff.Findings {
-		if f.Property == prop {
-			out = append(out, f)
+	paths := []string{path}
+	// per-property files /verif/known_findings.d/*.json have the same format
+	more, _ := filepath.Glob(filepath.Join(filepath.Dir(path), "known_findings.d", "*.json"))
+	paths = append(paths, more...)
+	for _, p := range paths {
+		b, err := os.ReadFile(p)
+		if err != nil {
+			continue
+		}
+		var ff findingsFile
+		if json.Unmarshal(b, &ff) != nil {
+			fmt.Fprintf(os.Stderr, "warning: cannot parse %s\n", p)
+			continue
+		}
+		for _, f := range ff.Findings {
+			if f.Property == prop {
+				out = append(out, f)
+			}
 		}
 	}
 	return out
